@@ -169,6 +169,31 @@ def run(ctx, idx):
         g = e.generators[0]
         if is_node_attr(g.iter, "arguments") and isinstance(e.elt, ast.Name) and isinstance(g.target, ast.Name) and e.elt.id == g.target.id and len(g.ifs) == 1:
             c = g.ifs[0]
+            extra_keep = None
+            if isinstance(c, ast.BoolOp) and isinstance(c.op, ast.Or) and len(c.values) == 2 and isinstance(c.values[1], ast.Compare) and isinstance(c.values[1].ops[0], ast.In) \
+                    and isinstance(c.values[1].left, ast.Attribute) and c.values[1].left.attr == "name" and isinstance(c.values[1].comparators[0], ast.Name):
+                # `... or arg.name in <kept>`: some of the two names survive.  That is the mapping only when <kept> is empty for
+                # every EEMS 2.0 command: bound to an empty constant, and rebound only under `<node>.command not in <the mapping table>`
+                # (a command written with its MPilot name is mapped to itself, arguments and all)
+                kn = c.values[1].comparators[0].id
+                defs_ = [n_ for n_ in own_nodes(fi.node) if isinstance(n_, ast.Assign) and any(isinstance(t_, ast.Name) and t_.id == kn for t_ in n_.targets)]
+                par_ = {}
+                for x_ in ast.walk(fi.node):
+                    for ch_ in ast.iter_child_nodes(x_):
+                        par_[id(ch_)] = x_
+
+                def _mpilot_only(n_):
+                    up_ = par_.get(id(n_))
+                    if not (isinstance(up_, ast.If) and n_ in up_.body):
+                        return False
+                    conj_ = up_.test.values if isinstance(up_.test, ast.BoolOp) and isinstance(up_.test.op, ast.And) else [up_.test]
+                    return any(isinstance(t_, ast.Compare) and len(t_.ops) == 1 and isinstance(t_.ops[0], ast.NotIn) and is_node_attr(t_.left, "command") and K.src(t_.comparators[0]).endswith("EEMS_COMMANDS") for t_ in conj_)
+
+                empties_ = [n_ for n_ in defs_ if isinstance(n_.value, (ast.Tuple, ast.List, ast.Set)) and not n_.value.elts or K.src(n_.value) in ("frozenset()", "set()", "tuple()", "list()")]
+                others_ = [n_ for n_ in defs_ if n_ not in empties_]
+                if empties_ and all(_mpilot_only(n_) for n_ in others_) and not any(isinstance(par_.get(id(n_)), ast.If) for n_ in empties_):
+                    extra_keep = kn
+                    c = c.values[0]
             if isinstance(c, ast.Compare) and isinstance(c.ops[0], ast.NotIn) and isinstance(c.left, ast.Attribute) and c.left.attr == "name":
                 try:
                     dropped = set(idx.const(fi.module, c.comparators[0], fi))
@@ -176,6 +201,8 @@ def run(ctx, idx):
                     dropped = None
                 ok = dropped == {"NewFieldName", "OutFileName"}
                 why = "arguments kept in order, dropping exactly %s" % sorted(dropped or [])
+                if extra_keep:
+                    why += " for every EEMS 2.0 command (`%s` is empty unless the command is written with its MPilot name)" % extra_keep
     if not ok and isinstance(raw_args.get("arguments"), ast.Name):
         # loop form: out = []; for arg in node.arguments: if arg.name not in <const>: out.append(arg)
         nm = raw_args["arguments"].id
